@@ -39,8 +39,10 @@ func sends[T any](ch chan T) int { return 0 }
 //@   at call Association.setRWND assert#within-peer-window{C10} dataLen <= a.RWND() && arg1 == a.RWND()-dataLen
 
 //@ func Association.handleSack
+//@   requires#decoded-chunk selectiveAckChunk != nil
 //@   at call Association.setRWND assert#rwnd-from-accepted-sack-only{C10} err == nil && result.processed &&
 //@      arg1 == ite(uint32(a.inflightQueue.getNumBytes()) >= selectiveAckChunk.advertisedReceiverWindowCredit, 0, selectiveAckChunk.advertisedReceiverWindowCredit-uint32(a.inflightQueue.getNumBytes()))
+//@   safety C03
 
 // ---- C08: shutdown transitions ----
 
@@ -65,16 +67,20 @@ func sends[T any](ch chan T) int { return 0 }
 //@      a.state == shutdownReceived && a.willSendShutdownAck == old(a.willSendShutdownAck)
 //@   tags C08
 //@ func Association.handleShutdown
+//@   requires#decoded-chunk shutdown != nil
 //@   ensures#crossed-shutdown-is-acked-at-once{C08} !old(a.shutdownCompletePending) && old(a.state) == shutdownSent ==>
 //@      a.state == shutdownAckSent && a.willSendShutdownAck && !a.willSendShutdown && sends(a.awakeWriteLoopCh) != old(sends(a.awakeWriteLoopCh))
 //@   ensures#ignored-when-complete-pending{C08} old(a.shutdownCompletePending) ==> a.state == old(a.state) && a.willSendShutdownAck == old(a.willSendShutdownAck)
 //@   tags C08
+//@   safety C03
+
 //@ func Association.handleShutdownAck
 //@   ensures#complete{C08} old(a.state) == shutdownSent || old(a.state) == shutdownAckSent ==>
 //@      a.willSendShutdownComplete && a.shutdownCompletePending && !a.willSendShutdown && !a.willSendShutdownAck && sends(a.awakeWriteLoopCh) != old(sends(a.awakeWriteLoopCh))
 //@   ensures#ignored-otherwise{C08} !(old(a.state) == shutdownSent || old(a.state) == shutdownAckSent) ==>
 //@      a.willSendShutdownComplete == old(a.willSendShutdownComplete) && a.shutdownCompletePending == old(a.shutdownCompletePending)
 //@   tags C08
+//@   safety C03
 
 //@ func Association.sendPayloadData
 //@   interference
@@ -88,21 +94,27 @@ func sends[T any](ch chan T) int { return 0 }
 //@   at call rtoManager.setNewRTT assert#karn-only-first-transmissions{C19} chunkPayload.nSent == 1
 
 //@ func Association.handleHeartbeatAck
+//@   requires#decoded-chunk c != nil
 //@   at call rtoManager.setNewRTT assert#sample-from-echoed-timestamp{C19} len(info.heartbeatInformation) == 8
+//@   safety C03
 
 //@ func Association.handlePeerLastTSNAndAcknowledgement
 //@   ensures#immediate-when-asked{C19} sackImmediately ==> a.immediateAckTriggered
 //@   ensures#immediate-on-gap{C19,C05} a.payloadQueue.size() > 0 ==> a.immediateAckTriggered
 //@   ensures#some-ack-is-scheduled{C19,C05} a.immediateAckTriggered || a.delayedAckTriggered
+//@   safety C03
 
 //@ func Association.handleData
+//@   requires#decoded-chunk chunkPayload != nil
 //@   at call Association.handlePeerLastTSNAndAcknowledgement assert#duplicate-acked-at-once{C19} !canPush ==> arg1
 //@   at call Association.handlePeerLastTSNAndAcknowledgement assert#gap-or-ibit-acked-at-once{C19} chunkPayload.immediateSack || sna32GT(chunkPayload.tsn, a.peerLastTSN()+1) || state == shutdownSent ==> arg1
+//@   safety C03
 
 //@ func Association.handleChunksEnd
 //@   ensures#immediate-wins{C19} old(a.immediateAckTriggered) ==> a.ackState == ackStateImmediate && sends(a.awakeWriteLoopCh) != old(sends(a.awakeWriteLoopCh))
 //@   ensures#delayed-otherwise{C19} !old(a.immediateAckTriggered) && old(a.delayedAckTriggered) ==> a.ackState == ackStateDelay
 //@   ensures#untouched{C19} !old(a.immediateAckTriggered) && !old(a.delayedAckTriggered) ==> a.ackState == old(a.ackState)
+//@   safety C03
 
 // ---- C17 / C04: negotiation, framing as negotiated, stale handshake packets ----
 
@@ -117,11 +129,14 @@ func sends[T any](ch chan T) int { return 0 }
 //@      a.useInterleaving == old(a.localInterleaving && a.peerInterleaving)
 
 //@ func Association.handleData
+//@   requires#decoded-chunk chunkPayload != nil
 //@   at call receivePayloadQueue.canPush assert#kind-as-negotiated{C17} chunkPayload.isIData() == a.useInterleaving
 //@   ensures#wrong-kind-answered-with-abort{C17} old(a.canHandleData(a.state)) && old(chunkPayload.isIData() != a.useInterleaving) ==>
 //@      a.willSendAbort && result == nil
+//@   safety C03
 
 //@ func Association.handleForwardTSN
+//@   requires#decoded-chunk chunkTSN != nil
 //@   ensures#wrong-kind-answered-with-abort{C17} old(a.useInterleaving) ==> a.willSendAbort && result == nil &&
 //@      a.payloadQueue.cumulativeTSN == old(a.payloadQueue.cumulativeTSN)
 //@   at call receivePayloadQueue.advanceCumulativeTSN assert#only-as-negotiated-and-forward{C17,C05,C07,C03}
@@ -130,16 +145,20 @@ func sends[T any](ch chan T) int { return 0 }
 //@   loop 1 complete{C07}
 //@   loop 1 atend assert#every-listed-stream-has-its-cursor-advanced{C07} a.streams[forwarded.identifier] != nil
 //@   loop 2 complete{C07}
+//@   safety C03
 
 //@ func Association.handleIForwardTSN
+//@   requires#decoded-chunk chunkTSN != nil
 //@   ensures#wrong-kind-answered-with-abort{C17} !old(a.useIForwardTSN) ==> a.willSendAbort && result == nil &&
 //@      a.payloadQueue.cumulativeTSN == old(a.payloadQueue.cumulativeTSN)
 //@   at call receivePayloadQueue.advanceCumulativeTSN assert#only-as-negotiated-and-forward{C17,C05,C07,C03}
 //@      a.useIForwardTSN && arg1 == chunkTSN.newCumulativeTSN && arg1 != a.payloadQueue.cumulativeTSN && !specSerLT32(arg1, a.payloadQueue.cumulativeTSN)
 //@   loop 1 complete{C07}
 //@   loop 1 atend assert#every-listed-stream-has-its-cursor-advanced{C07} a.streams[forwarded.identifier] != nil
+//@   safety C03
 
 //@ func Association.handleInit
+//@   requires#decoded-chunk pkt != nil && initChunk != nil
 //@   at store Association.peerInterleaving@1 assert#peer-flags-reset-before-parsing{C17,C04} !stored
 //@   at store Association.peerForwardTSN@1 assert#peer-flags-reset-before-parsing2{C17,C04} !stored
 //@   at store Association.peerIForwardTSN@1 assert#peer-flags-reset-before-parsing3{C17,C04} !stored
@@ -147,22 +166,28 @@ func sends[T any](ch chan T) int { return 0 }
 //@   ensures#ignored-once-established{C04} old(a.state) == established || old(a.state) == shutdownPending || old(a.state) == shutdownReceived || old(a.state) == shutdownSent ==>
 //@      result1 != nil && a.state == old(a.state) && a.peerVerificationTag == old(a.peerVerificationTag) && a.myNextTSN == old(a.myNextTSN) &&
 //@      a.payloadQueue.cumulativeTSN == old(a.payloadQueue.cumulativeTSN) && a.useInterleaving == old(a.useInterleaving) && a.sendZeroChecksum == old(a.sendZeroChecksum)
+//@   safety C03
 
 //@ func Association.handleInitAck
+//@   requires#decoded-chunk pkt != nil && initChunkAck != nil
 //@   ensures#ignored-outside-cookie-wait{C04} old(a.state) != cookieWait ==>
 //@      result == nil && a.state == old(a.state) && a.peerVerificationTag == old(a.peerVerificationTag) &&
 //@      a.payloadQueue.cumulativeTSN == old(a.payloadQueue.cumulativeTSN) && a.useInterleaving == old(a.useInterleaving) && a.sendZeroChecksum == old(a.sendZeroChecksum)
+//@   safety C03
 
 //@ func Association.handleCookieAck
 //@   ensures#ignored-outside-cookie-echoed{C04} old(a.state) != cookieEchoed ==> a.state == old(a.state) && a.useInterleaving == old(a.useInterleaving)
+//@   safety C03
 
 //@ func Association.handleCookieEcho
+//@   requires#decoded-chunk cookieEcho != nil
 //@   at call Association.establish assert#handshake-timers-stopped-first{C04} a.t1Init.state != rtxTimerStarted && a.t1Cookie.state != rtxTimerStarted &&
 //@      a.storedInit == nil && a.storedCookieEcho == nil
 //@   ensures#established-undisturbed{C04} old(a.state) == established ==> a.state == established && a.useInterleaving == old(a.useInterleaving) &&
 //@      a.payloadQueue.cumulativeTSN == old(a.payloadQueue.cumulativeTSN) && a.t1Init.state == old(a.t1Init.state)
 //@   ensures#ignored-in-shutdown-states{C04} old(a.state) != established && old(a.state) != closed && old(a.state) != cookieWait && old(a.state) != cookieEchoed ==>
 //@      result == nil && a.state == old(a.state)
+//@   safety C03
 
 //@ func Association.initWithOutOfBandTokens
 //@   at call Association.setSendZeroChecksum assert#zero-checksum-from-the-peer-token{C04,C13} sameSlice(arg1, remoteInit.params)
@@ -318,3 +343,9 @@ func specChunkWireSize(c *chunkPayloadData) int {
 //@   ensures#within-the-configured-buffer{C11} result <= a.maxReceiveBufferSize
 //@   modifies nothing
 //@   tags C11
+
+// ---- C03: parts of an association that exist from construction on ----
+
+//@ nonnil{C03} Association : payloadQueue inflightQueue pendingQueue controlQueue rtoMgr streams reconfigs reconfigRequests stats t1Init t1Cookie t2Shutdown t3RTX tReconfig ackTimer ; constructors createAssociationFromConfigWithTsn
+
+//@ nonnil{C03} payloadQueue : chunks ; constructors newPayloadQueue
